@@ -1,6 +1,7 @@
 import RosuModel.Model.PipelinePerf
 import RosuModel.Model.PipelinePerfObjs
 import RosuModel.Model.PipelineOsuWire
+import RosuModel.Model.PipelineCatchWire
 import RosuModel.Model.PipelineWire
 import RosuModel.Model.FullPerfWire
 
@@ -153,11 +154,52 @@ def handlePIPEPosu (args : List String) : String :=
       | _, _ => "bad-flags"
   | _ => "bad-pipep-osu"
 
+/-! ## osu!catch (decoded objects)
+
+`PIPEP catch <mods> <acc|-> <combo> <fruits> <droplets> <tiny> <tiny misses> <misses> <gradual state, 6 numbers>
+<the 12 arguments of a PIPE catch request>` -/
+
+def showCatchPerf (pre : String) (r : GenState.Res (CatchPerfAttrs Float)) : String :=
+  match r with
+  | .panic => s!"{pre}GSPANIC"
+  | .ok p =>
+    s!"{pre}pp={showF p.pp} {pre}st={showF p.difficulty.stars} {pre}nf={p.difficulty.nFruits} {pre}nd={p.difficulty.nDroplets} {pre}nt={p.difficulty.nTinyDroplets}"
+
+def handlePIPEPcatch (args : List String) : String :=
+  match args with
+  | [mods, acc, combo, fruits, droplets, tiny, tinyMisses, misses, gstate,
+      version, sm, tr, hr, refl, cs, ar, clock, conv, take, gidx, objs] =>
+    let parsed := if objs = "-" then [] else (objs.splitOn ";").map (Rosu.PipelineCatch.Wire.parseObj version sm tr)
+    if parsed.any Option.isNone then "bad-object"
+    else
+      let os := parsed.filterMap id
+      let st : Rosu.PipelineCatch.Settings Float Float32 :=
+        ⟨hr = "1", refl = "1", Rosu.Stack.Wire.f32 cs, Rosu.Stack.Wire.f64 ar, Rosu.Stack.Wire.f64 clock, conv = "1"⟩
+      let A := Rosu.SliderEvents.floatArith
+      let CA := Rosu.ConvCatch.Wire.ieee
+      let SA := secArith 750.0
+      let b : CatchB Float :=
+        { acc := optFloat acc, combo := optNat combo, fruits := optNat fruits, droplets := optNat droplets,
+          tiny := optNat tiny, tinyMisses := optNat tinyMisses, misses := optNat misses }
+      let tk := if take == "-" then none else some (nat! take)
+      let one := showRes (catchPerfFromMap ieeeCasts A CA SA driverFuel 0.0 st (nat! mods) tk b os) (showCatchPerf "")
+      let gs := if gidx = "-" then [] else (gidx.splitOn ",").map (fun s => s.toNat?.getD 0)
+      let s6 : CatchState :=
+        match natList gstate with
+        | [a, b, c, d, e, f] => ⟨a, b, c, d, e, f⟩
+        | _ => ⟨0, 0, 0, 0, 0, 0⟩
+      let gout := String.join (gs.map fun i =>
+        " " ++ showRes (catchGradualPerfValue ieeeCasts A CA SA driverFuel 0.0 st (nat! mods) i s6 os)
+          (showCatchPerf s!"g{i}."))
+      one ++ gout
+  | _ => "bad-pipep-catch"
+
 def handlePIPEP (args : List String) : String :=
   match args with
   | "mania" :: rest => handlePIPEPmania rest
   | "taiko" :: rest => handlePIPEPtaiko rest
   | "osu" :: rest => handlePIPEPosu rest
+  | "catch" :: rest => handlePIPEPcatch rest
   | _ => "bad-pipep"
 
 end Rosu.PipelinePerf.Wire
